@@ -317,9 +317,88 @@ func ruleAbsentJustified(r *Report) {
 				}, false)...)
 			}
 		}
+		var allFail []Edge
+		for _, c := range allCalls(fn) {
+			if cc := asCall(c); cc != nil {
+				allFail = append(allFail, failureEdges(cc)...)
+			}
+		}
+		// bytes.Compare(a, b) != 0, and boolean helpers that only wrap bytes.Equal
+		for _, c := range allCalls(fn) {
+			cc := asCall(c)
+			if cc == nil {
+				continue
+			}
+			if cname(cc) == "bytes.Compare" {
+				ev = append(ev, condEdges(fn, func(cond ssa.Value) (bool, bool) {
+					bo, ok := cond.(*ssa.BinOp)
+					if !ok || !((bo.X == ssa.Value(cc) && isZeroConst(bo.Y)) || (bo.Y == ssa.Value(cc) && isZeroConst(bo.X))) {
+						return false, false
+					}
+					switch bo.Op {
+					case token.NEQ:
+						return true, false
+					case token.EQL:
+						return false, true
+					}
+					return false, false
+				})...)
+			}
+			if h := cc.Call.StaticCallee(); h != nil && h.Blocks != nil && r.E.InModule(h) {
+				if _, _, ok := wrapsBytesEqual(h); ok {
+					ev = append(ev, boolEdges(fn, cc, false)...)
+				}
+			}
+		}
 		for _, c := range callSites(fn, "bytes.Equal") {
 			if cc := asCall(c); cc != nil {
 				ev = append(ev, boolEdges(fn, cc, false)...)
+				// a flag that merges the comparison with `false` set on error paths only (result
+				// variable of an inlined helper that returns (false, err)): flag false = mismatch or error
+				ev = append(ev, condEdges(fn, func(cond ssa.Value) (bool, bool) {
+					phi, ok := cond.(*ssa.Phi)
+					if !ok {
+						return false, false
+					}
+					sawEq, okAll := false, true
+					seen := map[*ssa.Phi]bool{}
+					var flat func(p *ssa.Phi)
+					flat = func(p *ssa.Phi) {
+						if seen[p] {
+							return
+						}
+						seen[p] = true
+						for i, ed := range p.Edges {
+							if q, isQ := ed.(*ssa.Phi); isQ {
+								flat(q)
+								continue
+							}
+							if ed == ssa.Value(cc) {
+								sawEq = true
+								continue
+							}
+							b, isC := boolConst(ed)
+							if !isC || b {
+								okAll = false
+								continue
+							}
+							// const false: zero value at declaration (entry block) is overwritten on every
+							// path through the inlined body; any other must come from an error path
+							pred := p.Block().Preds[i]
+							if g, _ := guarded(fn, lastInstr(pred), mkEdgeSet(allFail), nil); !g && pred != fn.Blocks[0] {
+								// the declaration's zero value flows in from the block that declares it
+								if reach, _ := (Search{Fn: fn, Target: isInstr(lastInstr(pred)), Avoid: isInstr(cc), AvoidEdges: mkEdgeSet(allFail)}).Run(); reach {
+									okAll = false
+								}
+							}
+						}
+					}
+					flat(phi)
+					if sawEq && okAll {
+						return false, true
+					}
+					return false, false
+				})...)
 			}
 		}
 		foundIdx := -1
@@ -340,7 +419,18 @@ func ruleAbsentJustified(r *Report) {
 			fv, isC := boolConst(retVal(ret, foundIdx))
 			if !isC {
 				// found computed: it must be the full-key comparison itself
-				if derives(retVal(ret, foundIdx), flowOpts{}, isCallTo("bytes.Equal")) {
+				if derives(retVal(ret, foundIdx), flowOpts{}, func(x ssa.Value) bool {
+					if isCallTo("bytes.Equal")(x) {
+						return true
+					}
+					if c, ok := x.(*ssa.Call); ok {
+						if h := c.Call.StaticCallee(); h != nil && h.Blocks != nil && r.E.InModule(h) {
+							_, _, w := wrapsBytesEqual(h)
+							return w
+						}
+					}
+					return false
+				}) {
 					n++
 					r.Ok(rule, shortFunc(fn)+"/absent", ret.Pos(), "found is the result of the full-key comparison")
 				}
@@ -470,8 +560,45 @@ func fieldStoresRaw(fn *ssa.Function, name string) []*ssa.Store {
 // identity.
 func ruleErrorWrap(r *Report) {
 	const rule = "error-wrap"
+	// Only where identity matters: the functions through which a typed error of package types
+	// (ErrIndexWrongBitSize, ErrIndexWrongFileSize, ErrPrimaryWrongFileSize, ErrKeyExists ...) can
+	// travel to an API caller — the functions that create one, and their callers, transitively.
+	carriers := map[*ssa.Function]bool{}
+	for _, fn := range moduleFuncs(r.E) {
+		eachInstr(fn, func(in ssa.Instruction) {
+			switch x := in.(type) {
+			case *ssa.MakeInterface:
+				if nt := namedOf(x.X.Type()); nt != nil && nt.Obj().Pkg() != nil && strings.HasSuffix(nt.Obj().Pkg().Path(), "/store/types") && strings.HasPrefix(nt.Obj().Name(), "Err") {
+					carriers[fn] = true
+				}
+			case *ssa.UnOp:
+				if g, ok := x.X.(*ssa.Global); ok && g.Pkg != nil && strings.HasSuffix(g.Pkg.Pkg.Path(), "/store/types") && strings.HasPrefix(g.Name(), "Err") {
+					carriers[fn] = true
+				}
+			}
+		})
+	}
+	for changed := true; changed; {
+		changed = false
+		for _, fn := range moduleFuncs(r.E) {
+			if carriers[fn] {
+				continue
+			}
+			for _, c := range allCalls(fn) {
+				for _, callee := range r.E.Callees(c) {
+					if carriers[callee] && errResultIndex(callee) >= 0 && errResultIndex(fn) >= 0 {
+						carriers[fn] = true
+						changed = true
+					}
+				}
+			}
+		}
+	}
 	n := 0
 	for _, fn := range moduleFuncs(r.E) {
+		if !carriers[fn] {
+			continue
+		}
 		for _, c := range callSites(fn, "fmt.Errorf") {
 			args := c.Common().Args
 			if len(args) < 2 {
@@ -520,10 +647,10 @@ func ruleErrorWrap(r *Report) {
 				fmt.Sprintf("fmt.Errorf(%q) formats an error without %%w: the caller can no longer recognise the typed error with errors.Is/As (e.g. the specific index mismatch error of a refused reopen, key-exists, not-found)", format))
 		}
 	}
-	if n < 20 {
-		r.Bad(rule, "inventory", token.NoPos, fmt.Sprintf("found %d error-wrapping fmt.Errorf calls, expected at least 20", n))
+	if n < 5 {
+		r.Bad(rule, "inventory", token.NoPos, fmt.Sprintf("found %d error-wrapping fmt.Errorf calls on the paths of typed errors, expected at least 5", n))
 	}
-	r.Min(rule, 20)
+	r.Min(rule, 5)
 }
 
 // R-MOVEFILES-ORDER: MoveFiles moves the numbered index files first; the
